@@ -394,6 +394,8 @@ class Interp:
                 key = 'fn%d' % len(self.fnitems)
                 self.fnitems[key] = c
                 return ('fnitem', key)
+            if 'adtc' in c:
+                return self.const_adt(c['adtc'])
             if 'bytes' in c:
                 return Bytes(bytes.fromhex(c['bytes']))
             if 'int' in c:
@@ -402,6 +404,24 @@ class Interp:
                 return UNIT
             return ('unk', 'const:' + c.get('def', c.get('ty', '?')))
         return ('unk', 'operand')
+
+    def const_adt(self, a):
+        """a constant of one of the crate's own enum/struct types, destructured by the extractor"""
+        fs = []
+        for f in a['fields']:
+            c = f['val']
+            if 'adtc' in c:
+                v = self.const_adt(c['adtc'])
+            elif 'bytes' in c:
+                v = Bytes(bytes.fromhex(c['bytes']))
+            elif 'int' in c:
+                v = Int(c['int'])
+            elif c.get('zst'):
+                v = UNIT
+            else:
+                v = ('unk', 'const:' + c.get('ty', '?'))
+            fs.append((f['name'], v))
+        return Adt(a['adt'], a['variant'], fs)
 
     def rvalue(self, st, frame, rv, dest_ty=None):
         k = rv['k']
@@ -497,6 +517,18 @@ class Interp:
                 return Int(r)
         a = freeze(st, a)
         b = freeze(st, b)
+        def _dv(x):
+            if x[0] == 'discr':
+                return x[1]
+            if x[0] == 'app' and x[1] in ('discr', 'discriminant_value', 'core::intrinsics::discriminant_value') and len(x[2]) == 1:
+                return x[2][0]
+            return None
+        if base in ('Eq', 'Ne') and _dv(a) is not None and _dv(b) is not None:
+            # discriminants of two values whose variants are known (e.g. a constructed error against a constant of the same enum)
+            va, vb = _dv(a), _dv(b)
+            if va is not None and vb is not None and va[0] == 'adt' and vb[0] == 'adt' and va[1] == vb[1]:
+                same = va[2] == vb[2]
+                return Int(int(same if base == 'Eq' else not same))
         if base == 'BitXor':
             import models
             ua = a[1] if a[0] == 'biter' else a
